@@ -239,27 +239,42 @@ def random_strings(rnd, k, maxlen=250):
     return [rnd.randbytes(rnd.randint(0, maxlen)) for _ in range(k)]
 
 
+def raw_payload(rnd, dport):
+    """(payload, extra structure) for a UDP destination port: the library designates parsers by destination port 5683 (CoAP)
+    and 132 (SCTP, its registry uses the protocol number as port); any other port designates none and the rest is payload --
+    including 9899, the RFC 6951 port of SCTP over UDP, which is given a well-formed SCTP packet most of the time"""
+    if dport == 132:
+        p_, st_ = sctp(rnd)
+        return p_, dict(sctp=st_)
+    if dport == 9899 and rnd.random() < 0.7:
+        return sctp(rnd)[0], {}
+    return rnd.randbytes(rnd.randint(8, 60)), {}
+
+
+RAW_PORTS = [0, 4, 6, 17, 53, 132, 5684, 9899, 65535]
+
+
 def pkt_udp_raw(rnd, dport=None, n=None):
     """UDP datagram to a port that designates no next parser (or one that merely looks like a protocol number): raw payload"""
-    dport = rnd.choice([0, 4, 6, 17, 53, 5684, 65535]) if dport is None else dport
-    payload = rnd.randbytes(rnd.randint(8, 60) if n is None else n)
-    return udp(rnd, payload, csum=lambda x: rnd.randrange(1, 65536), dport=dport), dict(raw=payload, dport=dport)
+    dport = rnd.choice(RAW_PORTS) if dport is None else dport
+    payload, extra = raw_payload(rnd, dport) if n is None else (rnd.randbytes(n), {})
+    return udp(rnd, payload, csum=lambda x: rnd.randrange(1, 65536), dport=dport), dict(raw=payload, dport=dport, **extra)
 
 
 def pkt_ipv6_udp_raw(rnd):
     src, dst = rnd.randbytes(16), rnd.randbytes(16)
-    dport = rnd.choice([0, 4, 6, 17, 53, 5684, 65535])
-    payload = rnd.randbytes(rnd.randint(8, 60))
+    dport = rnd.choice(RAW_PORTS)
+    payload, extra = raw_payload(rnd, dport)
     u = udp(rnd, payload, csum=lambda x: udp_checksum_v6(src, dst, x), dport=dport)
-    return ipv6(rnd, u, 17, src, dst), dict(raw=payload, dport=dport)
+    return ipv6(rnd, u, 17, src, dst), dict(raw=payload, dport=dport, **extra)
 
 
 def pkt_ipv4_udp_raw(rnd):
     src, dst = rnd.randbytes(4), rnd.randbytes(4)
-    dport = rnd.choice([0, 4, 6, 17, 53, 5684, 65535])
-    payload = rnd.randbytes(rnd.randint(8, 60))
+    dport = rnd.choice(RAW_PORTS)
+    payload, extra = raw_payload(rnd, dport)
     u = udp(rnd, payload, csum=lambda x: udp_checksum_v4(src, dst, x), dport=dport)
-    return ipv4(rnd, u, 17, src, dst), dict(raw=payload, dport=dport)
+    return ipv4(rnd, u, 17, src, dst), dict(raw=payload, dport=dport, **extra)
 
 
 def sctp_large(rnd, kind=None):
@@ -274,9 +289,23 @@ def sctp_large(rnd, kind=None):
         raw = struct.pack('!BBH', ctype, flags, 4 + len(value)) + value
         st = dict(ctype=ctype, flags=flags, params=[p[1] for p in params], clen=4 + len(value), padding=0)
         return sctp(rnd, chunks=[(raw, st)])
-    if kind == 'data':
+    if kind == 'bigparam':
+        # one parameter whose 16-bit length has its top bit set (32768 bytes or more)
+        p_ = sctp_param(rnd, vlen=rnd.choice([32764, 32765, 40000, 65000]))
+        ctype = rnd.choice([4, 5, 9])
+        flags = rnd.randrange(256)
+        raw = struct.pack('!BBH', ctype, flags, 4 + len(p_[0])) + p_[0]
+        st = dict(ctype=ctype, flags=flags, params=[p_[1]], clen=4 + len(p_[0]), padding=0)
+        return sctp(rnd, chunks=[(raw, st)])
+    if kind in ('data', 'jumbo', 'data-coap'):
         body = rnd.randbytes(12)
-        data = rnd.randbytes(rnd.choice([2000, 3001]))
+        if kind == 'jumbo':         # the largest chunk lengths the 16-bit field can announce, all bytes present
+            data = rnd.randbytes(rnd.choice([65533, 65534, 65535, 65532]) - 16)
+        elif kind == 'data-coap':   # user data that is itself a CoAP message, announced with a protocol identifier naming CoAP's port
+            body = body[:8] + struct.pack('!I', rnd.choice([5683, 5683, 132, 17]))
+            data = coap(rnd, payload=rnd.randbytes(rnd.randint(1, 9)))[0]
+        else:
+            data = rnd.randbytes(rnd.choice([2000, 3001]))
         flags = rnd.randrange(256)
         clen = 16 + len(data)
         raw = struct.pack('!BBH', 0, flags, clen) + body + data
